@@ -170,6 +170,21 @@ pub fn field_masks(n: u32, pairs: bool) -> Vec<u32> {
     v
 }
 
+/// `field_masks(n, true)` plus, in the thorough tier, every triple of fields.
+pub fn sweep_masks(n: u32, thorough: bool) -> Vec<u32> {
+    let mut v = field_masks(n, true);
+    if thorough {
+        for i in 0..n {
+            for j in i + 1..n {
+                for k in j + 1..n {
+                    v.push((1 << i) | (1 << j) | (1 << k));
+                }
+            }
+        }
+    }
+    v
+}
+
 pub fn all_masks(n: u32) -> Vec<u32> {
     // singles first so that the first witness of a defect is the smallest one
     let mut v = field_masks(n, false);
@@ -290,7 +305,7 @@ pub fn run(r: &mut Runner) {
         "alonzo::ProtocolParamUpdate",
         ProtocolParamUpdate,
         eq,
-        field_masks(PPU_FIELDS, true).into_iter().map(|m| (format!("mask={m:#x}"), ppu(m))).collect()
+        sweep_masks(PPU_FIELDS, r.ctx.thorough).into_iter().map(|m| (format!("mask={m:#x}"), ppu(m))).collect::<Vec<_>>()
     );
     rt!(r, "alonzo::Update", Update, eq, lab(updates()));
     rt!(r, "alonzo::NativeScript", NativeScript, eq, lab(native_scripts()));
@@ -303,10 +318,10 @@ pub fn run(r: &mut Runner) {
         "alonzo::TransactionBody",
         TransactionBody,
         eq,
-        all_masks(11).into_iter().map(|m| (mask_label(m, &BODY_NAMES), body(m))).collect()
+        all_masks(11).into_iter().map(|m| (mask_label(m, &BODY_NAMES), body(m))).collect::<Vec<_>>()
     );
     let wnames = ["vkeywitness", "native_script", "bootstrap_witness", "plutus_script", "plutus_data", "redeemer"];
-    rt!(r, "alonzo::WitnessSet", WitnessSet<'_>, raw, all_masks(6).into_iter().map(|m| (mask_label(m, &wnames), witness_set(m))).collect());
+    rt!(r, "alonzo::WitnessSet", WitnessSet<'_>, raw, all_masks(6).into_iter().map(|m| (mask_label(m, &wnames), witness_set(m))).collect::<Vec<_>>());
     let mut txs: Vec<(String, Tx<'static>)> = vec![];
     for (i, aux) in [Nullable::Null, Nullable::Undefined, Nullable::Some(KeepRaw::from(aux_datas()[5].clone()))].into_iter().enumerate() {
         for success in [true, false] {
